@@ -97,10 +97,23 @@ class VCSStrategyGit(VCSStrategy):
             raise FileNotFoundError("Could not find binary for Git")
         self._all_ignored_files = self._find_all_ignored_files()
         self._submodules = self._find_submodules()
+        # A submodule is a repository of its own, with its own ignore rules.
+        # The superproject knows nothing about the files inside of it.
+        for submodule in self._submodules:
+            if (Path(self.root) / submodule / ".git").exists():
+                self._all_ignored_files |= {
+                    submodule / path
+                    for path in self._find_all_ignored_files(submodule)
+                }
 
-    def _find_all_ignored_files(self) -> set[Path]:
+    def _find_all_ignored_files(
+        self, directory: Optional[Path] = None
+    ) -> set[Path]:
         """Return a set of all files ignored by git. If a whole directory is
         ignored, don't return all files inside of it.
+
+        The paths are relative to *directory* (itself relative to the root),
+        in which git is run; that is the root by default.
         """
         command = [
             str(self.EXE),
@@ -112,10 +125,12 @@ class VCSStrategyGit(VCSStrategy):
             # Separate output with \0 instead of \n.
             "-z",
         ]
-        result = execute_command(command, _LOGGER, cwd=self.root)
+        result = execute_command(
+            command, _LOGGER, cwd=Path(self.root) / (directory or "")
+        )
         # File names are bytes. Decode them the way the file system does.
         all_files = os.fsdecode(result.stdout).split("\0")
-        return {Path(file_) for file_ in all_files}
+        return {Path(file_) for file_ in all_files if file_}
 
     def _find_submodules(self) -> set[Path]:
         command = [
